@@ -14,10 +14,10 @@ from cryptography.x509.oid import NameOID
 _CACHE = {}
 
 
-def make_cert(kind="ec", cn="localhost", serial=None, tag=""):
+def make_cert(kind="ec", cn="localhost", serial=None, tag="", expired=False):
     """Self-signed certificate of the given key type -> (cert_pem, key_pem, der).
     serial: fixed serial number (two different certificates may share subject/issuer and serial); tag: cache discriminator."""
-    key = (kind, cn, serial, tag)
+    key = (kind, cn, serial, tag, expired)
     if key in _CACHE:
         return _CACHE[key]
     if kind == "rsa":
@@ -35,7 +35,7 @@ def make_cert(kind="ec", cn="localhost", serial=None, tag=""):
     now = datetime.datetime(2025, 1, 1, tzinfo=datetime.timezone.utc)
     cert = (x509.CertificateBuilder().subject_name(name).issuer_name(name).public_key(k.public_key())
             .serial_number(serial if serial is not None else x509.random_serial_number()).not_valid_before(now)
-            .not_valid_after(now + datetime.timedelta(days=36500))
+            .not_valid_after(now + datetime.timedelta(days=90 if expired else 36500))
             .add_extension(x509.SubjectAlternativeName([x509.DNSName(cn)]), critical=False)
             .sign(k, alg))
     cert_pem = cert.public_bytes(serialization.Encoding.PEM)
@@ -48,8 +48,11 @@ def make_cert(kind="ec", cn="localhost", serial=None, tag=""):
 class CertFiles:
     """Writes a certificate/key pair to a private temp dir; remove() deletes it."""
 
-    def __init__(self, kind="ec", cn="localhost", serial=None, tag=""):
+    def __init__(self, kind="ec", cn="localhost", serial=None, tag="", extra_chain=()):
+        """extra_chain: CertFiles whose certificates are appended to the PEM file (the peer sends them after its own)."""
         self.cert_pem, self.key_pem, self.der = make_cert(kind, cn, serial, tag)
+        for other in extra_chain:
+            self.cert_pem = self.cert_pem + other.cert_pem
         self.dir = tempfile.mkdtemp(prefix="vf-cert-")
         self.certfile = os.path.join(self.dir, "cert.pem")
         self.keyfile = os.path.join(self.dir, "key.pem")
